@@ -245,7 +245,20 @@ def first_seen(ctx, fn, rule='T23'):
                     s, x = c.comparators[0].id, txt(c.left)
                     add_in_body = adds_in(n.body, s, x)
                     if add_in_body is None and adds_in(loop.body, s, x) is None:
-                        continue          # a set that is never added to in this loop: not the idiom
+                        # not the idiom -- unless nothing ever fills the set: then the membership test is vacuous
+                        filled = any(isinstance(m, ast.Call) and (
+                            (isinstance(m.func, ast.Attribute) and m.func.attr in ('add', 'update') and txt(m.func.value) == s) or
+                            (isinstance(m.func, ast.Name) and aliases.get(m.func.id) == s) or
+                            any(isinstance(a, ast.Name) and a.id == s for a in list(m.args) + [k.value for k in m.keywords]))
+                            for m in ast.walk(fn.node)) or \
+                            any(isinstance(m, (ast.Return, ast.Yield)) and m.value is not None and
+                                any(isinstance(a, ast.Name) and a.id == s for a in ast.walk(m.value)) for m in ast.walk(fn.node)) or \
+                            any(isinstance(m, ast.AugAssign) and txt(m.target) == s for m in ast.walk(fn.node))
+                        if not filled and isinstance(sets[s].value, ast.Call) and not sets[s].value.args:
+                            found += 1
+                            ctx.ob(rule, fn.fq, 'membership guard `%s` is tested in a loop but nothing ever adds to `%s`: every item '
+                                   'looks unseen' % (txt(c), s), False, loc='%s:%d' % (fn.module.relpath, n.lineno))
+                        continue
                     found += 1
                     others = [o for o in cs if o is not c]
                     # the add must be unconditional inside the guarded body when other conjuncts exist -> impossible
